@@ -754,7 +754,7 @@ fn run_sqlconc(args: &Args) {
         let hdr = format!("# case {} seed={}", i, args.seed);
         writeln!(ops, "{}", hdr).unwrap();
         writeln!(imp, "{}", hdr).unwrap();
-        match std::panic::catch_unwind(std::panic::AssertUnwindSafe(|| sqlconc::run_case(&mut crng, args.max_len))) {
+        match std::panic::catch_unwind(std::panic::AssertUnwindSafe(|| sqlconc::run_case_kind(&mut crng, args.max_len, i % 4 == 3))) {
             Ok(o) => {
                 for l in &o.lines {
                     writeln!(ops, "{}", l).unwrap();
